@@ -98,6 +98,7 @@ func runC13(res *lib.Result, tier string, seed int64, args []string) error {
 			vararg  bool
 			markers []string
 			use     string // how the name is written at the use site (members: T.name)
+			declCol int    // > 0: the column of the name on a declaration line that ends in a trailing annotation
 		}
 		var detached []string // markers of comments separated from every declaration by a blank line
 		marker := 0
@@ -181,6 +182,10 @@ func runC13(res *lib.Result, tier string, seed int64, args []string) error {
 			}
 			if trailing {
 				text += " -- " + c1
+			} else if bare && (kind == 0 || kind == 1) && r.Chance(1, 2) {
+				// an annotation behind the declaration on its own line: the code in front of it is still code
+				text += " ---@type number"
+				d.declCol = strings.Index(text, name)
 			}
 			lines = append(lines, text)
 			if kind >= 2 && kind != 5 {
@@ -255,6 +260,14 @@ func runC13(res *lib.Result, tier string, seed int64, args []string) error {
 			var problems []string
 			if !strings.Contains(hov, d.name) {
 				problems = append(problems, "label does not contain the identifier")
+			}
+			if d.declCol > 0 {
+				if h3, err := sess.Hover("main.lua", d.line, d.declCol); err == nil && !strings.Contains(h3, d.name) {
+					problems = append(problems, fmt.Sprintf("hover on the declared name in %q is %q", lines[d.line], lib.Trunc(h3, 80)))
+				}
+				if locs, err := sess.Definition("main.lua", d.line, d.declCol); err == nil && len(locs) == 0 {
+					problems = append(problems, fmt.Sprintf("go-to-definition on the declared name in %q finds nothing", lines[d.line]))
+				}
 			}
 			{
 				k := 0
